@@ -338,6 +338,17 @@ def install(interp):
             if pat.endswith("() ...") and es is not None:
                 es = tz.Shape((1,) + es.items)
             return T(r, "float", None, None, es)
+        if isinstance(x, T) and x.tlen is None and pat == "s ... -> ..." and reduction in ("sum", "mean", "prod", "min", "max"):
+            # a TENSOR reduced over its leading axis: for the element-shaped tensors of this theory that axis is the
+            # batch axis - a whole-batch reduction (mixes samples: C11 taint) whose result has lost the leading dimension
+            r = tz._full_reduce(x, {"sum": "sum", "mean": "sum", "prod": "prod", "min": "amin", "max": "amax"}[reduction])
+            es = x.eshape
+            r.eshape = tz.Shape(tuple(es.items[1:])) if isinstance(es, tz.Shape) and len(es.items) >= 1 else es
+            r.scalar_like = False
+            if isinstance(es, tz.Shape) and len(es.items) >= 1:
+                # the result is handed on as per-sample data although every sample went into it
+                tz.note_batch_event("data", "einops.reduce over the leading (batch) axis of a tensor: its result, used as a per-sample tensor, depends on every sample")
+            return r
         raise Unsupported(f"einops.reduce pattern {pattern!r}")
 
     interp.namespaces["einops"] = Namespace("einops", dict(rearrange=rearrange, einsum=einsum, reduce=ereduce, repeat=erepeat))
